@@ -140,6 +140,9 @@ mut("fasteval_clears_shortcircuit_bits", ["C02"], "optimizeFastEvaluation/stores
 mut("stack_max_ignores_last_node", ["C09"], "calAndSetStackSize/",
     [("compiler.go", "\tfor i, n := range e.nodes {\n\t\tmaxStackSize = maxInt16(maxStackSize, f[i])\n\t\tn.osTop = f[i] - 1\n\t}",
       "\tfor i, n := range e.nodes {\n\t\tif i+1 < len(e.nodes) {\n\t\t\tmaxStackSize = maxInt16(maxStackSize, f[i])\n\t\t}\n\t\tn.osTop = f[i] - 1\n\t}")], "the root's own height does not count towards the stack maximum")
+# ---- C01 (name resolution order)
+mut("leaf_variable_before_constant", ["C01"], "parser.setLeafNodeParsers/post/resolution-order",
+    [("parser.go", "\t\tp.parseInt, p.parseStr, p.parseConst, p.parseVariable, p.parseUnknownVariable}", "\t\tp.parseInt, p.parseStr, p.parseVariable, p.parseConst, p.parseUnknownVariable}")], "a name that is both a constant and a variable resolves to the variable")
 
 def main():
     out = os.path.join(os.path.dirname(os.path.abspath(__file__)), "mutants")
